@@ -234,6 +234,13 @@ def hetero_noise_floor(S, index, bound):
     hetero_indices(S, 2, 2, index, bound)
 
 
+def posterior_missing(S, pattern, policy):
+    """the posterior covariance handed out under a NaN policy is the conditional on the observed points (hence a valid covariance,
+       no larger than the prior), see C16.exact"""
+    from .C16 import exact
+    exact(S, len(pattern), 1, pattern, policy, {}, "")
+
+
 def fixed_noise(S, n):
     mn = float(gpytorch.settings.min_fixed_noise.value(torch.float64))
     noise = torch.tensor([0.3, 1e-9, 0.05][:n])
@@ -271,6 +278,8 @@ def scenarios(tier, seed):
     add("min_variance", n=3, negative=True)
     add("fixed_noise", n=3)
     add("floors_per_dtype")
+    add("posterior_missing", pattern="010", policy="fill")
+    add("posterior_missing", pattern="01", policy="mask")
     add("hetero_noise_floor", index=1, bound=0)
     add("hetero_noise_floor", index=0, bound=0.3)
     add("fantasy_covariance", lik="fixed", cfg={"fpv": False, "detach": True})
